@@ -572,4 +572,288 @@ theorem coup_finish {tl : Bool} {addr : Nat} {w w' : NW tl} {m : NMove} {net1 : 
   rw [hw, hg1, hs, hv, hsub, hb]
   exact coup_b hc hi1 hslot
 
+theorem peerClose_ok {want : Bool} {env : Env} {reason : Bytes} {p : Peer} {o0 : Conn6.Out}
+    (h : peerClose want env reason p = .ok o0) : ∃ c, Conn6.disconnect env p.conn reason = .ok (c, o0) := by
+  unfold peerClose at h
+  split at h
+  · simp at h
+  · cases hcd : Conn6.disconnect env p.conn reason with
+    | error e => simp [hcd] at h
+    | ok cv => obtain ⟨c, o'⟩ := cv; simp [hcd] at h; exact ⟨c, by rw [h]⟩
+
+theorem hint_unconnected {c : Conn6.Conn} (h : c.state = .unconnected) : c.hint = none := by
+  simp [Conn6.Conn.hint, Conn6.State.token?, h]
+
+theorem map_snd_tag (addr : Nat) (l : List Packet) : (l.map (addr, ·)).map (·.2) = l := by
+  induction l with
+  | nil => rfl
+  | cons x xs ih => simp [ih]
+
+theorem coup_net {tl : Bool} {addr : Nat} {w w' : NW tl} {d : List Nat} {op : Op}
+    (hc : Coup addr w) (hok : opOk w.net op = true) (h : nwStep addr w (.net d op) = some w') :
+    Coup addr w' := by
+  obtain ⟨net1, r, o, g1, hr, hcb, hg, hw⟩ := nwStep_some h
+  simp only [realStep] at hr
+  cases hal : allowed addr op with
+  | false => simp [hal] at hr
+  | true =>
+    simp only [hal, if_true] at hr
+    cases hstep : Net.step ⟨w.g.now, d⟩ w.net op with
+    | error e => simp [hstep] at hr
+    | ok v =>
+      simp only [hstep, Option.some.injEq] at hr
+      subst hr
+      obtain ⟨hi1, _, hfor⟩ := step_sim hc.pinv hok hstep
+      have hst := hfor addr
+      unfold StepFor at hst
+      cases hp : projOp w.net addr op with
+      | none =>
+        simp only [hp] at hst
+        exact coup_quiet hc hi1 (ghostMove_none hp) (subOf_none hp) (Or.inl hst.1)
+          (by rw [hst.2]) (by rw [hst.2]; rfl) hg hw
+      | some lop =>
+        simp only [hp] at hst
+        cases op with
+        | feed a rd =>
+          simp only [projOp] at hp
+          have : a ≠ addr := by simpa [allowed] using hal
+          simp [this] at hp
+        | sendConnless a x =>
+          simp only [projOp] at hp
+          have : a ≠ addr := by simpa [allowed] using hal
+          simp [this] at hp
+        | connect a =>
+          simp only [projOp] at hp
+          by_cases ha : a = addr
+          · subst ha
+            simp only [if_true, Option.some.injEq] at hp
+            subst hp
+            have hs : slot w.net.peers a = none := by simpa [opOk] using hok
+            simp only [refStep, hs] at hst
+            cases hf : freshPid w.net with
+            | none => simp [hf] at hst
+            | some pid =>
+              simp only [hf] at hst
+              cases hcn : Conn6.connect ⟨w.g.now, d⟩ Conn6.Conn.new with
+              | error e => simp [hcn] at hst
+              | ok cv =>
+                obtain ⟨c, o'⟩ := cv
+                simp only [hcn, Except.ok.injEq, Prod.mk.injEq] at hst
+                obtain ⟨hslot1, _, hofor⟩ := hst
+                have hcr : created a w net1 = true := by simp [created, hs, ← hslot1]
+                have hborn : w.born = false := by simpa [hcr] using hcb
+                have hgc : w.g.b.conn = Conn6.Conn.new := (hc.fresh hborn).2
+                have hgm : ghostMove tl a w (.net d (.connect a)) = some (.call .b d .connect) := by
+                  simp [ghostMove, projOp, hf]
+                have hcall : P6.call w.g.now d w.g.b.conn .connect =
+                    .ok { conn := c, sent := o'.sent, events := o'.events } := by
+                  simp only [P6.call, hgc, hcn]
+                simp only [ghostStep, hgm, ghost_call_b _ _ _ hcall, Option.some.injEq] at hg
+                refine coup_finish hc hi1 hw hg.symm (by rw [← hofor]; exact lift_sent _ _ _)
+                  (by rw [← hofor]; exact lift_vital _ _ _) rfl (by simp [hcr]) ?_
+                intro pid' p1 h'
+                rw [← hslot1] at h'
+                cases h'
+                exact ⟨rfl, fun hu => absurd hu (nu_connect hcn)⟩
+          · simp [ha] at hp
+        | accept pid =>
+          simp only [projOp] at hp
+          by_cases ha : addrOf w.net pid = some addr
+          · simp only [ha, if_true, Option.some.injEq] at hp
+            subst hp
+            obtain ⟨p, hs, _⟩ := slot_of_addrOf hc.pinv ha
+            obtain ⟨hpc, hborn⟩ := hc.conn pid p hs
+            simp only [refStep, hs, slotModify, peerAccept] at hst
+            by_cases hu : p.conn.state = .unconnected
+            · simp only [hu, ne_eq, not_true_eq_false, if_false] at hst
+              cases hcf : Conn6.feed ⟨w.g.now, d⟩ p.conn (fun _ => some (connectPacket p.token)) with
+              | error e => simp [hcf] at hst
+              | ok cv =>
+                obtain ⟨c, o'⟩ := cv
+                simp only [hcf] at hst
+                by_cases hwn : o'.warns.isEmpty = true
+                · by_cases hen : o'.events.isEmpty = true
+                  · simp only [hwn, hen, Bool.not_true, Bool.false_eq_true, if_false, Except.ok.injEq,
+                      Prod.mk.injEq] at hst
+                    obtain ⟨hslot1, _, hofor⟩ := hst
+                    obtain ⟨i, alt, dg, hreq, hdg, hwr⟩ := hc.pend pid p hs hu
+                    have hgm : ghostMove tl addr w (.net d (.accept pid)) = some (.deliver .b i d alt) := by
+                      simp [ghostMove, projOp, ha, hreq]
+                    have hrecv : (proto6 tl).recv w.g.now d w.g.b.conn dg.pkt alt =
+                        .ok { conn := c, sent := o'.sent, events := o'.events } := by
+                      show P6.recv tl w.g.now d w.g.b.conn dg.pkt alt = _
+                      have hcg : Conn6.feed ⟨w.g.now, d⟩ p.conn (P6.wireRead tl dg.pkt alt) =
+                          Conn6.feed ⟨w.g.now, d⟩ p.conn (fun _ => some (connectPacket p.token)) :=
+                        feed_congr _ _ (by rw [hint_unconnected hu, hwr])
+                      simp only [P6.recv, ← hpc, hcg, hcf]
+                      rfl
+                    simp only [ghostStep, hgm, NetSim.step, World.get, Side.other, hdg, hrecv,
+                      Option.some.injEq] at hg
+                    have hcr : created addr w net1 = false := created_of_some hs
+                    refine coup_finish hc hi1 hw hg.symm (by rw [← hofor]; exact lift_sent _ _ _)
+                      (by rw [← hofor]; exact lift_vital _ _ _) rfl (by simp [hborn]) ?_
+                    intro pid' p1 h'
+                    rw [← hslot1] at h'
+                    cases h'
+                    exact ⟨rfl, fun _ => ⟨by simp [hcr], p, hs, hu, rfl⟩⟩
+                  · simp [hwn, hen] at hst
+                · simp [hwn] at hst
+            · simp [hu] at hst
+          · simp [ha] at hp
+        | reject pid reason =>
+          simp only [projOp] at hp
+          by_cases ha : addrOf w.net pid = some addr
+          · simp only [ha, if_true, Option.some.injEq] at hp
+            subst hp
+            obtain ⟨p, hs, _⟩ := slot_of_addrOf hc.pinv ha
+            obtain ⟨hpc, hborn⟩ := hc.conn pid p hs
+            simp only [refStep, hs, slotRemove] at hst
+            cases hpcl : peerClose true ⟨w.g.now, d⟩ reason p with
+            | error e => simp [hpcl] at hst
+            | ok o' =>
+              obtain ⟨c, hcd⟩ := peerClose_ok hpcl
+              simp only [hpcl, Except.ok.injEq, Prod.mk.injEq] at hst
+              · obtain ⟨hslot1, _, hofor⟩ := hst
+                have hgm : ghostMove tl addr w (.net d (.reject pid reason)) =
+                    some (.call .b d (.disconnect reason)) := by simp [ghostMove, projOp, ha]
+                have hcall : P6.call w.g.now d w.g.b.conn (.disconnect reason) =
+                    .ok { conn := c, sent := o'.sent, events := o'.events } := by
+                  simp only [P6.call, ← hpc, hcd]
+                simp only [ghostStep, hgm, ghost_call_b _ _ _ hcall, Option.some.injEq] at hg
+                refine coup_finish hc hi1 hw hg.symm (by rw [← hofor]; exact lift_sent _ _ _)
+                  (by rw [← hofor]; exact lift_vital _ _ _) rfl (by simp [hborn]) ?_
+                intro pid' p1 h'
+                rw [← hslot1] at h'
+                cases h'
+          · simp [ha] at hp
+        | disconnect pid reason =>
+          simp only [projOp] at hp
+          by_cases ha : addrOf w.net pid = some addr
+          · simp only [ha, if_true, Option.some.injEq] at hp
+            subst hp
+            obtain ⟨p, hs, _⟩ := slot_of_addrOf hc.pinv ha
+            obtain ⟨hpc, hborn⟩ := hc.conn pid p hs
+            simp only [refStep, hs, slotRemove] at hst
+            cases hpcl : peerClose false ⟨w.g.now, d⟩ reason p with
+            | error e => simp [hpcl] at hst
+            | ok o' =>
+              obtain ⟨c, hcd⟩ := peerClose_ok hpcl
+              simp only [hpcl, Except.ok.injEq, Prod.mk.injEq] at hst
+              · obtain ⟨hslot1, _, hofor⟩ := hst
+                have hgm : ghostMove tl addr w (.net d (.disconnect pid reason)) =
+                    some (.call .b d (.disconnect reason)) := by simp [ghostMove, projOp, ha]
+                have hcall : P6.call w.g.now d w.g.b.conn (.disconnect reason) =
+                    .ok { conn := c, sent := o'.sent, events := o'.events } := by
+                  simp only [P6.call, ← hpc, hcd]
+                simp only [ghostStep, hgm, ghost_call_b _ _ _ hcall, Option.some.injEq] at hg
+                refine coup_finish hc hi1 hw hg.symm (by rw [← hofor]; exact lift_sent _ _ _)
+                  (by rw [← hofor]; exact lift_vital _ _ _) rfl (by simp [hborn]) ?_
+                intro pid' p1 h'
+                rw [← hslot1] at h'
+                cases h'
+          · simp [ha] at hp
+        | ignore pid =>
+          simp only [projOp] at hp
+          by_cases ha : addrOf w.net pid = some addr
+          · simp only [ha, if_true, Option.some.injEq] at hp
+            subst hp
+            obtain ⟨p, hs, _⟩ := slot_of_addrOf hc.pinv ha
+            obtain ⟨_, hborn⟩ := hc.conn pid p hs
+            simp only [refStep, hs, slotRemove, Except.ok.injEq, Prod.mk.injEq] at hst
+            obtain ⟨hslot1, _, hofor⟩ := hst
+            exact coup_quiet hc hi1 (by simp [ghostMove, projOp, ha]) rfl (Or.inr ⟨hslot1.symm, hborn⟩)
+              (by rw [← hofor]; simp [liftOut]) (by rw [← hofor]; simp [liftOut, vitalOfNet]) hg hw
+          · simp [ha] at hp
+        | send pid x v =>
+          simp only [projOp] at hp
+          by_cases ha : addrOf w.net pid = some addr
+          · simp only [ha, if_true, Option.some.injEq] at hp
+            subst hp
+            obtain ⟨p, hs, _⟩ := slot_of_addrOf hc.pinv ha
+            obtain ⟨hpc, hborn⟩ := hc.conn pid p hs
+            simp only [refStep, hs, slotModify, peerSend] at hst
+            cases hcs : Conn6.send ⟨w.g.now, d⟩ p.conn x v with
+            | error e => simp [hcs] at hst
+            | ok cv =>
+              obtain ⟨c, res, o'⟩ := cv
+              simp only [hcs, Except.ok.injEq, Prod.mk.injEq] at hst
+              obtain ⟨hslot1, hret, hofor⟩ := hst
+              have hgm : ghostMove tl addr w (.net d (.send pid x v)) = some (.call .b d (.send x v)) := by
+                simp [ghostMove, projOp, ha]
+              have hcall : P6.call w.g.now d w.g.b.conn (.send x v) =
+                  .ok { conn := c, sent := o'.sent, events := o'.events, accepted := res == .ok } := by
+                simp only [P6.call, ← hpc, hcs]
+              simp only [ghostStep, hgm, ghost_call_b _ _ _ hcall, Option.some.injEq] at hg
+              refine coup_finish hc hi1 hw hg.symm (by rw [← hofor]; exact lift_sent _ _ _)
+                (by rw [← hofor]; exact lift_vital _ _ _) ?_ (by simp [hborn]) ?_
+              · rw [← hret]
+                cases res <;> simp [subOf, callSub, ha]
+              · intro pid' p1 h'
+                rw [← hslot1] at h'
+                cases h'
+                exact ⟨rfl, fun hu => absurd hu (nu_send hcs)⟩
+          · simp [ha] at hp
+        | flush pid =>
+          simp only [projOp] at hp
+          by_cases ha : addrOf w.net pid = some addr
+          · simp only [ha, if_true, Option.some.injEq] at hp
+            subst hp
+            obtain ⟨p, hs, _⟩ := slot_of_addrOf hc.pinv ha
+            obtain ⟨hpc, hborn⟩ := hc.conn pid p hs
+            simp only [refStep, hs, slotModify, peerFlush] at hst
+            cases hcs : Conn6.flush ⟨w.g.now, d⟩ p.conn with
+            | error e => simp [hcs] at hst
+            | ok cv =>
+              obtain ⟨c, o'⟩ := cv
+              simp only [hcs, Except.ok.injEq, Prod.mk.injEq] at hst
+              obtain ⟨hslot1, _, hofor⟩ := hst
+              have hgm : ghostMove tl addr w (.net d (.flush pid)) = some (.call .b d .flush) := by
+                simp [ghostMove, projOp, ha]
+              have hcall : P6.call w.g.now d w.g.b.conn .flush =
+                  .ok { conn := c, sent := o'.sent, events := o'.events } := by
+                simp only [P6.call, ← hpc, hcs]
+              simp only [ghostStep, hgm, ghost_call_b _ _ _ hcall, Option.some.injEq] at hg
+              refine coup_finish hc hi1 hw hg.symm (by rw [← hofor]; exact lift_sent _ _ _)
+                (by rw [← hofor]; exact lift_vital _ _ _) rfl (by simp [hborn]) ?_
+              intro pid' p1 h'
+              rw [← hslot1] at h'
+              cases h'
+              exact ⟨rfl, fun hu => absurd hu (nu_flush hcs)⟩
+          · simp [ha] at hp
+        | tick =>
+          simp only [projOp, Option.some.injEq] at hp
+          subst hp
+          cases hs : slot w.net.peers addr with
+          | none =>
+            simp only [refStep, hs, Except.ok.injEq, Prod.mk.injEq] at hst
+            obtain ⟨hslot1, _, hofor⟩ := hst
+            exact coup_quiet hc hi1 (by simp [ghostMove, projOp, hs]) rfl
+              (Or.inl (by rw [← hslot1, hs])) (by rw [← hofor]) (by rw [← hofor]; rfl) hg hw
+          | some x =>
+            obtain ⟨pid, p⟩ := x
+            obtain ⟨hpc, hborn⟩ := hc.conn pid p hs
+            simp only [refStep, hs] at hst
+            cases hct : Conn6.tick ⟨w.g.now, d⟩ p.conn with
+            | error e => simp [hct] at hst
+            | ok cv =>
+              obtain ⟨c, o'⟩ := cv
+              simp only [hct, Except.ok.injEq, Prod.mk.injEq] at hst
+              obtain ⟨hslot1, _, hofor⟩ := hst
+              obtain ⟨hev, hnu⟩ := tick_shape hct
+              have hgm : ghostMove tl addr w (.net d .tick) = some (.call .b d .tick) := by
+                simp [ghostMove, projOp, hs]
+              have hcall : P6.call w.g.now d w.g.b.conn .tick =
+                  .ok { conn := c, sent := o'.sent, events := o'.events } := by
+                simp only [P6.call, ← hpc, hct]
+              simp only [ghostStep, hgm, ghost_call_b _ _ _ hcall, Option.some.injEq] at hg
+              have hcr : created addr w net1 = false := created_of_some hs
+              refine coup_finish hc hi1 hw hg.symm ?_ ?_ rfl (by simp [hborn]) ?_
+              · rw [← hofor]; exact map_snd_tag addr o'.sent
+              · rw [← hofor, hev]; rfl
+              · intro pid' p1 h'
+                rw [← hslot1] at h'
+                cases h'
+                refine ⟨rfl, fun hu => ⟨by simp [hcr], p, hs, ?_, rfl⟩⟩
+                exact Classical.byContradiction fun hpu => hnu hpu hu
+
 end Tw.NetC01
